@@ -15,7 +15,7 @@
    minimum liquidity".
    Statements only. *)
 From MD.Model Require Import Base Ownable Epoch PoolMath Types PoolManager FarmManager Chain.
-From MD.Proofs Require Import PoolMathProofs BankProofs SwapProofs ChainProofs PmProofs LiquidityProofs PoolCustody PoolCustodyChain.
+From MD.Proofs Require Import PoolMathProofs BankProofs SwapProofs ChainProofs PmProofs LiquidityProofs PoolCustody PoolCustodyChain NonVacuity.
 
 Theorem C01_backed_in_every_reachable_world : forall g w0 ops,
   genesis_world g = Ok w0 -> 0 <= amount_of (fm_create_fee (g_fm g)) ->
@@ -94,6 +94,13 @@ Theorem C01_rejected_operations_change_nothing : forall w o,
   snd (step w o) = false -> fst (step w o) = set_fault w None \/ fst (step w o) = w.
 Proof. exact step_rejected_unchanged. Qed.
 
+(* the hypotheses of the history-level theorems above are met by a real history: a concrete genesis (g0) and list of
+   operations (ops0: pool creation, deposits, swap, odd single-asset deposit, donation, locked deposit, position, farm,
+   epochs, claim, withdrawal) satisfy all of them, every transaction of it is accepted, and afterwards reserves,
+   positions and farm budgets are non-zero and the only excess is the odd unit and the donation *)
+Theorem C01_hypotheses_met_by_a_real_history : nonvacuity_statement.
+Proof. exact hypotheses_satisfiable_by_a_real_history. Qed.
+
 Print Assumptions C01_backed_in_every_reachable_world.
 Print Assumptions C01_preserved_by_every_operation.
 Print Assumptions C01_preserved_by_every_history.
@@ -103,3 +110,4 @@ Print Assumptions C01_swap_flow.
 Print Assumptions C01_deposit_flow.
 Print Assumptions C01_withdraw_flow.
 Print Assumptions C01_rejected_operations_change_nothing.
+Print Assumptions C01_hypotheses_met_by_a_real_history.
